@@ -70,13 +70,20 @@ func NewMethodEvaluator(
 		calleeFrame := evaluatedObjectT.GetFrame()
 		calleeClass := evaluatedObjectT.GetObjectClass()
 
-		// a call without receiver inside a class goes to the method the
-		// class (or an ancestor) defines, not to a top level function
-		if calleeClass == "" && ctx.GetClass() != "" {
-			definedT :=
-				base.GetTopLevelMethodT(ctx.GetFrame(), ctx.GetClass(), methodIdentifierT.ToString())
+		// the call is filed under the class that defines the method: a call
+		// without receiver (or on self) inside a class goes to the class or an
+		// ancestor, d.greet to the ancestor of d's class that defines greet
+		lookupFrame, lookupClass := calleeFrame, calleeClass
 
-			if definedT != nil && definedT.DefinedClass != "" {
+		if (calleeClass == "" || instance == "self") && ctx.GetClass() != "" {
+			lookupFrame, lookupClass = ctx.GetFrame(), ctx.GetClass()
+		}
+
+		if lookupClass != "" {
+			definedT :=
+				base.GetTopLevelMethodT(lookupFrame, lookupClass, methodIdentifierT.ToString())
+
+			if definedT != nil && definedT.DefinedClass != "" && !definedT.IsBuiltinMethod() {
 				calleeFrame = definedT.DefinedFrame
 				calleeClass = definedT.DefinedClass
 			}
